@@ -64,6 +64,10 @@ pub fn shrink_top(op: &TOp) -> Vec<TOp> {
         TOp::ListIsSemicomplete { d } => {
             shrink_dg(d).into_iter().map(|d| TOp::ListIsSemicomplete { d }).collect()
         }
+        TOp::ListIsSemicompleteDense { order, seed } => shrink_usize(*order, 2)
+            .into_iter()
+            .map(|order| TOp::ListIsSemicompleteDense { order, seed: *seed })
+            .collect(),
         TOp::ListComplete { order } => {
             shrink_usize(*order, 1).into_iter().map(|order| TOp::ListComplete { order }).collect()
         }
